@@ -30,6 +30,23 @@ func (s *vRespSink) Send(_ *PID, _ any, sender *PID) {
 	s.mu.Unlock()
 }
 
+// vInlineEcho replies on the goroutine that delivers the request (before Engine.Request returns).
+type vInlineEcho struct {
+	e   *Engine
+	pid *PID
+	k   int
+}
+
+func (r *vInlineEcho) Start()            {}
+func (r *vInlineEcho) PID() *PID         { return r.pid }
+func (r *vInlineEcho) Invoke([]Envelope) {}
+func (r *vInlineEcho) Shutdown()         {}
+func (r *vInlineEcho) Send(_ *PID, _ any, sender *PID) {
+	if sender != nil {
+		r.e.Send(sender, vUser{r.k})
+	}
+}
+
 type vRespEvents struct {
 	mu   sync.Mutex
 	pid  *PID
@@ -83,6 +100,62 @@ func runRespHistory(t testing.TB, ops []string) string {
 			}
 			evs.mu.Unlock()
 			out = append(out, res)
+		case strings.HasPrefix(op, "qi"): // qi<k>: request to a target that replies k on the delivering goroutine, then Result
+			k, _ := strconv.Atoi(op[2:])
+			inl := &vInlineEcho{e: e, pid: NewPID(e.address, "verif/inline"), k: k}
+			if e.Registry.get(inl.pid) == nil {
+				e.SpawnProc(inl)
+			} else {
+				e.Registry.get(inl.pid).(*vInlineEcho).k = k
+			}
+			r := e.Request(inl.pid, vUser{0}, 25*time.Millisecond)
+			v, err := r.Result()
+			res := "timeout"
+			if err == nil {
+				if u, ok := v.(vUser); ok {
+					res = "value" + strconv.Itoa(u.k)
+				}
+			}
+			out = append(out, res)
+		case strings.HasPrefix(op, "cc"): // cc<n>x<m>: n goroutines x m requests to an echo actor, tagged payloads
+			parts := strings.Split(op[2:], "x")
+			n, _ := strconv.Atoi(parts[0])
+			m, _ := strconv.Atoi(parts[1])
+			echo := e.SpawnFunc(func(c *Context) {
+				if u, ok := c.Message().(vUser); ok {
+					c.Respond(vUser{u.k + 1000000})
+				}
+			}, "verifecho", WithID(strconv.Itoa(len(out))))
+			var mu sync.Mutex
+			okc, timeouts, cross := 0, 0, 0
+			var wg sync.WaitGroup
+			for g := 0; g < n; g++ {
+				g := g
+				wg.Add(1)
+				go func() {
+					defer wg.Done()
+					for j := 0; j < m; j++ {
+						tag := g*10000 + j
+						v, err := e.Request(echo, vUser{tag}, 2*time.Second).Result()
+						mu.Lock()
+						if err != nil {
+							timeouts++
+						} else if u, ok := v.(vUser); ok && u.k == tag+1000000 {
+							okc++
+						} else {
+							cross++
+						}
+						mu.Unlock()
+					}
+				}()
+			}
+			wg.Wait()
+			<-e.Poison(echo).Done()
+			evs.mu.Lock()
+			dup := evs.dup
+			evs.dup = 0
+			evs.mu.Unlock()
+			out = append(out, fmt.Sprintf("ok=%d timeouts=%d crosstalk=%d dupid=%d", okc, timeouts, cross, dup))
 		case strings.HasPrefix(op, "rp"): // rp<i>v<k>
 			parts := strings.Split(op[2:], "v")
 			i, _ := strconv.Atoi(parts[0])
@@ -131,16 +204,31 @@ func runRespHistory(t testing.TB, ops []string) string {
 				res += "!still-registered"
 			}
 			out = append(out, res)
-		case strings.HasPrefix(op, "ids"): // ids<n>: how many of n fresh response ids collide
+		case strings.HasPrefix(op, "ids"): // ids<n>: how many of n fresh response ids (drawn by 8 goroutines at once) collide
 			n, _ := strconv.Atoi(op[3:])
+			const G = 8
+			parts := make([][]string, G)
+			var wg sync.WaitGroup
+			for g := 0; g < G; g++ {
+				g := g
+				wg.Add(1)
+				go func() {
+					defer wg.Done()
+					for j := 0; j < n/G; j++ {
+						parts[g] = append(parts[g], NewResponse(e, time.Second).PID().ID)
+					}
+				}()
+			}
+			wg.Wait()
 			seen := make(map[string]bool, n)
 			dups := 0
-			for j := 0; j < n; j++ {
-				id := NewResponse(e, time.Second).PID().ID
-				if seen[id] {
-					dups++
+			for _, p := range parts {
+				for _, id := range p {
+					if seen[id] {
+						dups++
+					}
+					seen[id] = true
 				}
-				seen[id] = true
 			}
 			out = append(out, "dups="+strconv.Itoa(dups))
 		}
@@ -166,7 +254,8 @@ func TestVerifResp(t *testing.T) {
 		s, _ := vgen.KV(in, "ops")
 		emit(fmt.Sprintf("corpus%d", i), strings.Split(s, ","))
 	}
-	emit("ids", []string{"ids" + strconv.Itoa(vgen.Scale(300000, 1500000))})
+	emit("ids", []string{"ids" + strconv.Itoa(vgen.Scale(320000, 1600000))})
+	emit("conc", []string{"cc" + strconv.Itoa(vgen.Scale(16, 64)) + "x" + strconv.Itoa(vgen.Scale(400, 2000)), "qi5", "cc2x50", "qi9"})
 	r := vgen.NewRng(vgen.Seed())
 	n := vgen.Scale(150, 2500)
 	for i := 0; i < n; i++ {
@@ -178,6 +267,9 @@ func TestVerifResp(t *testing.T) {
 		val := 0
 		for j := 0; j < k; j++ {
 			switch c := rr.Intn(10); {
+			case c < 1:
+				val++
+				ops = append(ops, "qi"+strconv.Itoa(val))
 			case c < 3 || nreq == 0:
 				ops = append(ops, "rq")
 				nreq++
